@@ -33,11 +33,11 @@ fn assert_agrees<T: Ord>(x: &T, y: &T, m: Ordering) {
     assert!(x.cmp(x) == Ordering::Equal && x == x, "C15: cmp/eq not reflexive");
 }
 
-// @h prop=C15 tier=quick kind=proof inst="ReadSlice<MirrorRegion<u8>>, both region-backed, same region" bounds="two adjacent items of <=3 symbolic bytes, symbolic lengths (prefixes, equal contents, different lengths all in the query)" desc="==, partial_cmp, cmp coincide with lexicographic order of the owned vectors; reflexive; antisymmetric"
+// @h prop=C15 tier=quick kind=proof inst="ReadSlice<MirrorRegion<u8>>, both region-backed, same region" bounds="two adjacent items: <=3 symbolic bytes with symbolic length vs 2 symbolic bytes (shorter, equal-length and longer first item; prefixes and equal contents all in the query)" desc="==, partial_cmp, cmp coincide with lexicographic order of the owned vectors; reflexive; antisymmetric"
 #[cfg_attr(kani, kani::proof, kani::unwind(6))]
 pub fn c15_slice_region_region() {
     let a = Bytes::<3>::any_symlen();
-    let b = Bytes::<3>::any_symlen();
+    let b = Bytes::<3>::any_len(2);
     let mut r = SR::default();
     let ia = r.push(a.as_slice());
     let ib = r.push(b.as_slice());
@@ -90,12 +90,12 @@ pub fn c15_slice_borrowed_borrowed() {
     cover!(model_cmp(&a, &b) == Ordering::Equal && a.len == 3, "equal");
 }
 
-// @h prop=C15 tier=quick kind=proof inst="ReadSlice<StringRegion>, region-backed vs owned-borrowed" bounds="rows [s1,s2] vs [t1] / [t1,t2] of 1-byte strings with symbolic contents" desc="rows of strings compare like Vec<String>"
+// @h prop=C15 tier=quick kind=proof inst="ReadSlice<StringRegion>, region-backed vs owned-borrowed" bounds="row [s1,s2] region-backed vs row [t1] borrowed, 1-byte strings with symbolic contents" desc="rows of strings compare like Vec<String>"
 #[cfg_attr(kani, kani::proof, kani::unwind(6))]
 pub fn c15_slice_str() {
     let s = [crate::gen::string_shaped(&[1]), crate::gen::string_shaped(&[1])];
     let t = [crate::gen::string_shaped(&[1]), crate::gen::string_shaped(&[1])];
-    let tl = if sym::bool() { 1 } else { 2 };
+    let tl = 1;
     let mut r = SliceRegion::<StringRegion>::default();
     let is = r.push(s.as_slice());
     let tv: Vec<String> = t[..tl].to_vec();
@@ -103,7 +103,7 @@ pub fn c15_slice_str() {
     let x = r.index(is);
     let m = s.as_slice().cmp(&t[..tl]);
     assert_agrees(&x, &y, m);
-    cover!(m == Ordering::Greater && tl == 1, "longer row with equal prefix is greater");
+    cover!(m == Ordering::Greater, "longer row with equal prefix is greater");
     sym::forget(r);
 }
 
